@@ -18,7 +18,7 @@ from .canon import to_canon, ceq, render, show, from_json, I, R, S, L, C, Y, D
 
 LEVEL = "exploration"
 RULE = ("(a) values of every kind incl. numpy arrays of each dtype stored / read / seen; (b) exhaustive: signature shape "
-        "((), (x), (x,y), (x,y,z), permutations, optional leading klong) x callable kind (lambda, def, bound method, .py "
+        "((), (x), (x,y), (x,y,z), permutations, optional leading klong) x callable kind (lambda, def, bound method, functools.wraps-decorated def, .py "
         "import with arbitrary parameter names) x call form (direct, alias, projection, each, each-2, over, @) x argument "
         "tuples; (c) Hypothesis histories of define / redefine (same or other arity) / delete / re-create / capture wrapper / "
         "call with right and wrong argument counts; non-trivial = arity>=2 or a klong parameter or a non-direct call form "
